@@ -103,8 +103,14 @@ func (a *Actor) start(fn func()) error {
 	a.busy = true
 	a.mu.Unlock()
 	go func() {
+		defer func() {
+			// a panicking reconcile is a crash of the server process: it is recorded, and the world goes on
+			if r := recover(); r != nil {
+				a.w.notePanic(fmt.Sprintf("%s %s/%s: %v @ %s", a.Name, a.CurCtl, a.CurID, r, panicSite()))
+			}
+			a.yield <- yieldMsg{done: true}
+		}()
 		fn()
-		a.yield <- yieldMsg{done: true}
 	}()
 	return a.wait()
 }
